@@ -130,7 +130,7 @@ Grow(defs, salt, i) ==
                          ELSE IF Rnd(salt, i, 7) % 8 = 1
                          THEN <<Ref("alias", "field", <<Pick(FNs, salt, i, 8), Pick(FNs, salt, i, 9)>>)>>
                          ELSE <<Ref("alias", "field", <<defs[Pick(fieldsOf(s1), salt, i, 8)].name>>)>>]>>
-        ELSE IF act = 6 THEN defs \o <<Def("param", fname(s1), s1)>>
+        ELSE IF act = 6 THEN defs \o <<[Def("param", fname(s1), s1) EXCEPT !.refs = TyRef(<<"UInt">>)]>>   \* `name: UInt:8`
         ELSE IF act = 7 THEN
             IF enums = <<>> THEN newType("enum")
             ELSE defs \o <<Def("val", Fresh(VNs, UsedIn(defs, Pick(enums, salt, i, 2)), salt, i, 3), Pick(enums, salt, i, 2))>>
